@@ -22,7 +22,7 @@ SITE = {
     "meet2": "Interval::intersect_assign", "diff": "Interval::difference_assign",
     "rex": "Interval::refine_existential", "run": "Interval::refine_universal",
     "wrap": "Interval::wrap_assign", "contains": "Interval::contains", "scontains": "Interval::strictly_contains",
-    "disjoint": "Interval::is_disjoint_from", "eq": "Interval::operator==",
+    "disjoint": "Interval::is_disjoint_from", "eq": "Interval::operator==", "cc76": "Interval::CC76_widening_assign",
 }
 PROPERTY_OBLIGATIONS = ("enclose", "empty", "exact", "pred", "okinv")
 
@@ -60,7 +60,7 @@ def run(ctx):
     drv = ctx.ensure_pplv("pplv_c12")
     h = ctx.compile_harness("c12_interval.cc", flags=("-frounding-math",))
     wd = ctx.workdir()
-    nrandom = 400 if ctx.tier == "quick" else 12000
+    nrandom = 2000 if ctx.tier == "quick" else 40000
     seed = ctx.seed
     only = ""
     if ctx.replay:
@@ -159,12 +159,27 @@ def run(ctx):
                        "theorems": "PPLV.Props.C12 (all: they are statements about the model)", "replay_cmd": replay_cmd},
                       found_input=False, record={"site": SITE.get(ev[2].split(":")[0], ev[2]), "tags": ["model_correspondence"]})
 
-    # ---- broken proof obligations
+    # ---- search in the MODEL (the repaired switches, i.e. what op_encloses / op_exact are about)
+    rc, st_out, err = ctx.run([drv, "--selftest", "--d3", "0", "--d12", "0"], timeout=300)
+    st_fail = [l for l in (st_out or "").splitlines() if l.startswith("SELFTEST-FAIL")]
+    if rc != 0 or "selftest failures" not in (st_out or ""):
+        ctx.fatal("model self-test did not run: rc=%s %s" % (rc, (err or "")[-300:]))
+    if st_fail and not broken:
+        ctx.fatal("the model fails its self-test although the theorems build (reference Spec.lean and model disagree): " + st_fail[0])
+
+    # ---- broken proof obligations: a concrete failing input is looked for in the model (self-test over
+    #      the template set) and in the implementation (the correspondence run above)
     for b in broken:
-        ctx.violation("proof obligation broken: " + b,
-                      {"obligation": b, "note": "no concrete failing input is attached to a proof failure; "
-                       "the correspondence run above is the search in the implementation"},
-                      found_input=False, record={"site": "lean", "tags": ["proof"]})
+        if st_fail:
+            ctx.violation("proof obligation broken: %s ; the model itself fails on: %s" % (b, st_fail[0]),
+                          {"obligation": b, "model_counterexamples": st_fail[:10],
+                           "replay_cmd": "%s --selftest --d3 0" % os.path.basename(drv)},
+                          found_input=True, record={"site": "lean", "tags": ["proof"]})
+        else:
+            ctx.violation("proof obligation broken: " + b,
+                          {"obligation": b, "note": "the model passes its self-test over the template set and the "
+                           "correspondence run found no failing input for this obligation"},
+                          found_input=False, record={"site": "lean", "tags": ["proof"]})
 
     # ---- coverage
     distinct, nontrivial = set(), set()
@@ -198,6 +213,7 @@ def run(ctx):
                                   "d12_wrap_width_eq_2_pow_w": d12, "d12_witness": probes["d12"][1]},
         random_pairs_per_type=nrandom,
         harness_crashes=len(crashes),
+        model_selftest_failures=len(st_fail),
     )
     ctx.assumptions += [
         "rational members only (an interval denotes a subset of Q; all library policies have may_contain_infinity = false)",
